@@ -1030,7 +1030,7 @@ class ArgumentParser(ParserDeprecations, ActionsContainer, ArgumentLinking, argp
                 cfg_file = self._load_config_parser_mode(default_config_file.get_content(), key=key)
                 cfg = self.merge_config(cfg_file, cfg)
                 try:
-                    with _ActionPrintConfig.skip_print_config():
+                    with _ActionPrintConfig.skip_print_config(), _ActionSubCommands.not_single_subcommand():
                         cfg = self._parse_common(
                             cfg=cfg,
                             env=False,
@@ -1038,6 +1038,7 @@ class ArgumentParser(ParserDeprecations, ActionsContainer, ArgumentLinking, argp
                             with_meta=None,
                             skip_validation=skip_validation,
                             skip_required=True,
+                            fail_no_subcommand=False,
                         )
                 except (TypeError, KeyError, argparse.ArgumentError) as ex:
                     raise argument_error(
